@@ -1503,6 +1503,18 @@ impl<'p> Ctx<'p> {
                     self.log(s, "R14", "matches!(e, p) -> match e { p => true, _ => false }");
                 }
             }
+            // R25: writing to the process's standard streams. The helper's precondition is `false`: a reachable call is a
+            // failed obligation of the "no output on standard streams" property (dbg! is the identity on its argument)
+            "dbg" | "println" | "eprintln" | "print" | "eprint" => {
+                let inner = mac.tokens.to_string();
+                let rep = if name == "dbg" && !stmt && !inner.trim().is_empty() {
+                    format!("{{ vx_std_stream_output(); {} }}", inner)
+                } else {
+                    format!("vx_std_stream_output(){}", if stmt { ";" } else { "" })
+                };
+                self.replace(s, e, vec![Part::Lit(rep)]);
+                self.log(s, "R25", &format!("{}! -> vx_std_stream_output() (precondition: never reached)", name));
+            }
             "format" => {
                 if let Some(t) = format_to_cat(mac) {
                     self.replace(s, e, vec![Part::Lit(t)]);
